@@ -215,8 +215,17 @@ def gen_case(rng: random.Random, i: int) -> dict:
         for hi, h in enumerate(hooks):
             if rng.random() < 0.3:
                 h["removes"] = rng.randrange(len(hooks))
+    # ---- constructions the constructors must refuse (caught by the model), before / between / after the statistics:
+    #      nothing of the refused object may stay behind (e.g. subscribed to the simulator's events)
+    ghosts = []
+    if rng.random() < 0.35:
+        for _ in range(rng.randint(1, 2)):
+            ghosts.append({"pos": rng.randint(0, nst) if rng.random() < 0.6 else 0, "kind": rng.choice(KINDS),
+                           "how": rng.choice(["name", "name", "key", "sim"])})
+    # ---- the model class may be a container / define its own truth value
+    variant = rng.choice(["len0", "boolfalse"]) if rng.random() < 0.25 else "plain"
     return {"clock": clock, "strategy": strategy, "prog": prog, "cmds": cmds, "chans": chans,
-            "payloads": payloads, "stats": stats, "hooks": hooks}
+            "payloads": payloads, "stats": stats, "hooks": hooks, "ghosts": ghosts, "model_variant": variant}
 
 
 # ----------------------------------------------------------------------------- running the implementation
@@ -325,7 +334,9 @@ def oracle(case: dict, obs: dict):
              "end_tie": False, "rejected": False, "kinds": [], "deliveries": 0, "executed": 0,
              "persistent_closed": False, "warm_not_reached": False,
              "hook_on_simulator_event": any(h["ev"] in ("warmup", "endrepl") for h in case.get("hooks") or []),
-             "hook_on_channel": any(isinstance(h["ev"], list) for h in case.get("hooks") or [])}
+             "hook_on_channel": any(isinstance(h["ev"], list) for h in case.get("hooks") or []),
+             "refused_construction": bool(case.get("ghosts")),
+             "model_with_own_truth_value": (case.get("model_variant") or "plain") != "plain"}
     if "error" in obs:
         return ("driver-error", obs["error"] + " " + obs.get("tb", "")[-300:]), facts
     log = obs["log"]
@@ -687,6 +698,14 @@ def shrink(case, pred, budget=150):
                 cur = cand; changed = True; break
         if changed:
             continue
+        if cur.get("model_variant", "plain") != "plain":
+            cand = json.loads(json.dumps(cur)); cand["model_variant"] = "plain"
+            if attempt(cand):
+                cur = cand; changed = True; continue
+        if cur.get("ghosts"):
+            cand = json.loads(json.dumps(cur)); cand["ghosts"].pop()
+            if attempt(cand):
+                cur = cand; changed = True; continue
         # hooks (from the back: the indices the others refer to stay)
         if cur.get("hooks"):
             cand = json.loads(json.dumps(cur)); cand["hooks"].pop()
@@ -696,7 +715,8 @@ def shrink(case, pred, budget=150):
             if attempt(cand):
                 cur = cand; changed = True; continue
         # statistics (from the back: ids of the others stay)
-        if len(cur["stats"]) > 1 and not any(h["pos"] >= len(cur["stats"]) for h in cur.get("hooks") or []):
+        if len(cur["stats"]) > 1 and not any(h["pos"] >= len(cur["stats"])
+                                             for h in (cur.get("hooks") or []) + (cur.get("ghosts") or [])):
             cand = json.loads(json.dumps(cur)); cand["stats"].pop()
             if attempt(cand):
                 cur = cand; changed = True; continue
@@ -767,7 +787,9 @@ def main(tier: str) -> int:
                        "channels incl. the standard DATA / WEIGHT_DATA / TIMESTAMP_DATA event types, subscriber on the statistics' own events "
                        "with re-entrant registrations; in 60% of the cases 1-3 one-shot listeners of the model on the simulator's WARMUP / "
                        "END_REPLICATION events or a channel, subscribed before / between / after the statistics and unsubscribing themselves "
-                       "or one another inside notify) x 4 clock kinds x command scenarios (start; run_up_to(+incl) + start; step sequences; "
+                       "or one another inside notify; in 35% 1-2 constructions the constructors must refuse (name / key not a str, not a simulator; "
+                       "the TypeError is caught by the model) before / between / after the statistics; in 25% a model class defining "
+                       "__len__ -> 0 or __bool__ -> False) x 4 clock kinds x command scenarios (start; run_up_to(+incl) + start; step sequences; "
                        "second replication without cleanup; abandon mid-run and re-initialise; cleanup + re-initialise; end_replication; "
                        "paused and never ended; malformed stream every 5th case: refused payloads, failing handlers, three error strategies); "
                        "non-trivial = distinct case executing >= 3 events in which the warm-up reset fired with observations both before and "
